@@ -195,7 +195,8 @@ def normalise_module(relpath: str, tree: ast.Module) -> list[str]:
     from .canon import canonicalise
 
     g = base.get("__globals__")
-    canonicalise(tree, set(g) if g is not None else None)
+    ca = base.get("__class_attrs__")
+    canonicalise(tree, set(g) if g is not None else None, set(ca) if ca is not None else None)
     for cls_name, node in _functions(tree):
         key = f"{cls_name}.{node.name}" if cls_name else node.name
         b = base.get(key)
@@ -280,7 +281,8 @@ def normalise_program(trees: dict[str, ast.Module]) -> dict[str, list[str]]:
         if not b:
             continue
         g = b.get("__globals__")
-        canonicalise(tree, set(g) if g is not None else None)
+        ca = b.get("__class_attrs__")
+        canonicalise(tree, set(g) if g is not None else None, set(ca) if ca is not None else None)
         for cls_name, node in _functions(tree):
             key = f"{cls_name}.{node.name}" if cls_name else node.name
             bb = b.get(key)
@@ -317,7 +319,9 @@ def generate(root: str) -> dict[str, T.Any]:
 
             module_globals = sorted({t.id for st in tree.body if isinstance(st, ast.Assign) for t in st.targets if isinstance(t, ast.Name)} |
                                     {st.target.id for st in tree.body if isinstance(st, ast.AnnAssign) and isinstance(st.target, ast.Name)})
-            canonicalise(tree, set(module_globals))
+            class_attrs = sorted(f"{c.name}.{t.id}" for c in ast.walk(tree) if isinstance(c, ast.ClassDef) for st in c.body
+                                 for t in ((st.targets if isinstance(st, ast.Assign) else [st.target]) if isinstance(st, (ast.Assign, ast.AnnAssign)) else []) if isinstance(t, ast.Name))
+            canonicalise(tree, set(module_globals), set(class_attrs))
             entry: dict[str, T.Any] = {}
             names = []
             for cls_name, node in _functions(tree):
@@ -328,6 +332,7 @@ def generate(root: str) -> dict[str, T.Any]:
                     entry[key] = [[n, s] for n, s in sigs]
             entry["__functions__"] = sorted(names)
             entry["__globals__"] = module_globals
+            entry["__class_attrs__"] = class_attrs
             entry["__classes__"] = sorted(c.name for c in ast.walk(tree) if isinstance(c, ast.ClassDef))
             out[rel] = entry
     return out
